@@ -300,7 +300,9 @@ func main() {
 	var clock uint64
 	verifhook.SetNow(func(site string, t time.Time) time.Time { return time.Unix(0, int64(clock)) })
 	verifhook.SetSkip(func(site string) bool { return true })
-	tLoad := uint64(2_000_000_000_000_000_000) // 2033
+	// The logical clock is anchored one hour ahead of the real clock, so that code reading the real clock
+	// directly (no seam) still sees times consistent with the scenario (within that hour).
+	tLoad := uint64(time.Now().Add(time.Hour).UnixNano())
 	for _, dd := range []float32{0.5, 1, 370} {
 		base := config.Sweeper{RetentionDays: dd}
 		ret := base.RetentionDuration()
@@ -317,7 +319,7 @@ func main() {
 					for _, mts := range grid {
 						for _, existing := range []string{"absent", "older-live", "newer-live"} {
 							bkt := world.NewBucket()
-							b := inst.New("b", bkt, inst.Opt{Native: true})
+							b := inst.New("b", bkt, inst.Opt{Native: true, Sweeper: &sw})
 							a := inst.New("a", bkt, inst.Opt{Native: native, Sweeper: &sw})
 							// B holds a marker for k with timestamp mts (and a live key so the DBI is not trivial)
 							b.AppTxn(func(txn *lmdb.Txn) error {
@@ -335,7 +337,10 @@ func main() {
 									ets = mts + 5
 								}
 								if native {
-									a.AppTxn(func(txn *lmdb.Txn) error { inst.NativePut(txn, "d", []byte("k"), ets, false, []byte("mine")); return nil })
+									a.AppTxn(func(txn *lmdb.Txn) error {
+										inst.NativePut(txn, "d", []byte("k"), ets, false, []byte("mine"))
+										return nil
+									})
 								} else {
 									// shadow: the entry lives in the shadow DBI with that timestamp, application DBI has the key
 									a.AppTxn(func(txn *lmdb.Txn) error {
@@ -354,6 +359,13 @@ func main() {
 							clock = tLoad
 							names := bkt.Names()
 							data, _ := bkt.Get(names[0])
+							// markers travel in every snapshot for as long as they exist (B has not swept it)
+							if slc, _, err := fleet.SnapLC(data); err != nil {
+								ev.Fatal("snapshot of b: %v", err)
+							} else if m, ok := slc["d"]["k"]; !ok || !m.Deleted || m.TS != mts {
+								r.Violate(pc.Name, "marker-missing-from-uploaded-snapshot", fmt.Sprintf("retention_days=%v cutoff=%v: instance b holds a deletion marker for k at t_load%+d ns, its snapshot has %v (present=%v)", dd, c, int64(mts-tLoad), m, ok),
+									map[string]any{"retention_days": dd, "cutoff_ns": int64(c), "marker_ts": mts, "t_load": tLoad})
+							}
 							_, _, err := a.Load(names[0], data, 1<<62)
 							pc.Executions++
 							pc.Transitions += 3
@@ -412,7 +424,7 @@ func main() {
 	verifhook.SetNow(nil)
 	pc.States = int64(len(cclasses))
 	pc.Distinct = int64(len(cclasses))
-	pc.Bound = "retention_days {0.5,1,370} x cutoff {-1h,0,1ns,1%,50%,75%,100%,200%} x native/shadow x t_sweep in {t_load, -1ns, -1h} x marker timestamp on a 9-point grid around both cutoffs x local key {absent, older live, newer live}; real SendOnce on B and LoadOnce on A with the sweeper enabled"
+	pc.Bound = "retention_days {0.5,1,370} x cutoff {-1h,0,1ns,1%,50%,75%,100%,200%} x native/shadow x t_sweep in {t_load, -1ns, -1h} x marker timestamp on a 9-point grid around both cutoffs x local key {absent, older live, newer live}; real SendOnce on B and LoadOnce on A, both with the sweeper enabled; the marker must be in B's snapshot"
 	pc.Samples = []any{"retention_days=1 cutoff=6h native=true marker@(sweepcut-1ns) existing=absent -> must stay absent"}
 	r.AddPart(pc)
 
